@@ -287,7 +287,7 @@ fn run(cfg: &RunCfg) -> Report {
         rep.class_n("observe-N-mutations-observe-histories", nh);
     }
     // random histories
-    let n = if small { 3 } else { cfg.n(cfg.pick(120_000, 2_000_000)) / ns };
+    let n = if small { 3 } else { cfg.n(cfg.pick(120_000, 6_000_000)) / ns };
     for k in 0..n {
         let len = match rng.below(4) {
             0 => 1 + rng.below(10) as usize,
